@@ -546,7 +546,7 @@ func writeReplay(w *world, g *gen, r result, prop, outDir string, run bool) repl
 	if fn.Signature.Variadic() {
 		callExpr = strings.TrimSuffix(callExpr, ")") + "...)"
 	}
-	imports := []string{"\"testing\""}
+	imports := []string{"\"testing\"", "\"runtime/debug\""}
 	body := strings.Join(decl, "\n")
 	if strings.Contains(body, "math.Float") {
 		imports = append(imports, "\"math\"")
@@ -584,7 +584,7 @@ import (
 func TestVerifReplay(t *testing.T) {
 	defer func() {
 		if r := recover(); r != nil {
-			t.Fatalf("REPLAY-CONFIRMED: panic: %%v", r)
+			t.Fatalf("REPLAY-PANIC: %%v\n%%s", r, debug.Stack())
 		}
 	}()
 %s
@@ -595,7 +595,8 @@ func TestVerifReplay(t *testing.T) {
 	for _, n := range lg.note {
 		fmt.Fprintf(&sb, "// note: %s\n", n)
 	}
-	replayable := lg.ok && ri.fn.Parent() == nil && !strings.Contains(fn.Name(), "$")
+	replayable := lg.ok && ri.fn.Parent() == nil && !strings.Contains(fn.Name(), "$") &&
+		(r.obl.kind == "safe" || r.obl.kind == "post" || r.obl.kind == "assert")
 	if !replayable {
 		fmt.Fprintf(&sb, "// the model could not be turned into Go values completely; test below is best effort and was not run.\n")
 	}
@@ -603,6 +604,25 @@ func TestVerifReplay(t *testing.T) {
 	sb.WriteString(test)
 	if replayable && run {
 		ok, detail := runReplay(pkg, test)
+		// a panic only confirms the obligation if it is the failure the obligation speaks about: the violated
+		// postcondition, the harness assertion with this label, or a run-time panic at the obligation's source line
+		// (inputs the query does not constrain are zero values and may crash elsewhere: that proves nothing)
+		switch r.obl.kind {
+		case "post":
+			ok = ok && strings.Contains(detail, "postcondition violated")
+		case "assert":
+			lbl := r.obl.name[strings.LastIndex(r.obl.name, ":")+1:]
+			if i := strings.Index(lbl, "#"); i >= 0 {
+				lbl = lbl[:i]
+			}
+			ok = ok && strings.Contains(detail, "verifAssert violated: "+lbl)
+		case "safe":
+			site := r.obl.pos
+			if i := strings.LastIndex(site, "/"); i >= 0 {
+				site = site[i+1:]
+			}
+			ok = ok && site != "" && strings.Contains(detail, site)
+		}
 		out.confirmed = ok
 		out.detail = detail
 		fmt.Fprintf(&sb, "\n// replay result: confirmed=%v\n", ok)
@@ -641,7 +661,7 @@ func runReplay(pkg *types.Package, test string) (bool, string) {
 		out = out[:3000]
 	}
 	detail := fmt.Sprintf("go test took %.1fs\n%s", time.Since(t0).Seconds(), out)
-	confirmed := strings.Contains(out, "REPLAY-CONFIRMED") || strings.Contains(out, "panic:") || strings.Contains(out, "test timed out")
+	confirmed := strings.Contains(out, "REPLAY-CONFIRMED") || strings.Contains(out, "REPLAY-PANIC") || strings.Contains(out, "panic:") || strings.Contains(out, "test timed out")
 	if strings.Contains(out, "[build failed]") || strings.Contains(out, "cannot use") {
 		confirmed = false
 	}
